@@ -408,6 +408,48 @@ def ob_beam_mass(dim, timo, et, inclined):
     return Verdict(DISCHARGED, backend="native beam simulation", detail=f"translational mass {want:.4f}, min eig {w.min():.2e}", sub=n + 2)
 
 
+def ob_large(n):
+    """a mesh large enough for Ndof^2 to exceed 2^31 (index arithmetic of the scatter map): K and M of a 2-D elastic problem are symmetric, K r == 0 for the three rigid motions,
+    no zero diagonal entry, t^T M t == rho x area x thickness per direction"""
+    import contextlib, io
+    from EasyFEA import Models, Simulations, ElemType
+    from EasyFEA.Geoms import Domain, Point
+    with contextlib.redirect_stdout(io.StringIO()):
+        mesh = Domain(Point(), Point(2, 1), 2.0 / n).Mesh_2D([], ElemType.TRI3, isOrganised=True)
+    Ndof = 2 * mesh.Nn
+    if Ndof ** 2 <= 2 ** 31:
+        raise Unsupported(f"only {Ndof} dofs")
+    simu = Simulations.Elastic(mesh, Models.Elastic.Isotropic(2, E=3.0, v=0.25, planeStress=True, thickness=0.7))
+    simu.rho = 1.9
+    K, _, M, _ = simu.Get_K_C_M_F()
+    co = np.asarray(mesh.coord)
+    out = []
+    for nm, A in (("K", K), ("M", M)):
+        asym = abs(A - A.T).max() / abs(A).max()
+        if asym > 1e-12:
+            out.append(f"{nm} is not symmetric (max |A - A^T| / max |A| = {asym:.2e})")
+        nz = int((A.diagonal() <= 0).sum())
+        if nz:
+            out.append(f"{nm} has {nz} non-positive diagonal entries")
+    tx, ty = np.zeros(Ndof), np.zeros(Ndof)
+    tx[0::2], ty[1::2] = 1, 1
+    rot = np.zeros(Ndof)
+    rot[0::2], rot[1::2] = -co[:, 1], co[:, 0]
+    for nm, r in (("translation x", tx), ("translation y", ty), ("rotation", rot)):
+        e = float(np.abs(K @ r).max() / (abs(K).max() * np.abs(r).max()))
+        if e > 1e-10:
+            out.append(f"K . ({nm}) != 0 (relative {e:.2e})")
+    want = 1.9 * 2.0 * 0.7
+    for nm, t in (("x", tx), ("y", ty)):
+        got = float(t @ (M @ t))
+        if abs(got - want) > 1e-9 * want:
+            out.append(f"translational mass along {nm}: {got:.6f} instead of {want:.6f}")
+    if out:
+        raise Refuted(f"2-D elastic problem with {Ndof} dofs (Ndof^2 = {Ndof ** 2:.3e} > 2^31): " + "; ".join(out[:4]), cex=dict(Ndof=int(Ndof), Nn=int(mesh.Nn)), signature="large:elastic",
+                      replay=dict(confirmed=True, violations=out[:6]))
+    return Verdict(DISCHARGED, backend="native", detail=f"{Ndof} dofs", sub=9)
+
+
 def build(tier, seed):
     obs = []
     fk = (f"{BP}::GradUGradV", f"{BP}::LinearizedElasticity", f"{GP}::_GroupElem.Get_B_e_pg", f"{GP}::_GroupElem.Get_dN_e_pg",
@@ -473,6 +515,8 @@ def build(tier, seed):
                     obs.append(Ob(f"C02.beam.mass.{dim}d.{'timoshenko' if timo else 'bernoulli'}.{et}{'.inclined' if inclined else ''}", ob_beam_mass, (dim, timo, et, inclined), "X",
                                   ("EasyFEA/FEM/Operators/Bilinear.py::BeamMass", "EasyFEA/Models/Beam/_beam.py::BeamStructure.Calc_M_e_pg"), bound="one 3-element beam",
                                   clause="beam mass matrix symmetric, positive semi-definite, translational mass == rho A L per direction", timeout=300))
+    obs.append(Ob("C02.simu.large.elastic", ob_large, (220,), "X", ("EasyFEA/Simulations/_simu.py::_Simu.__Get_csr_map", "EasyFEA/FEM/_group_elem.py::_GroupElem._Get_assembly_e"), bound="one structured TRI3 mesh with more than 46340 dofs",
+                  clause="K, M symmetric with positive diagonal, K r == 0 for the rigid motions, translational mass == rho x area x thickness when Ndof^2 exceeds 2^31", timeout=900))
     obs.append(Ob("C02.cache.transparent", C14.ob_cache_key, (), "B", ("EasyFEA/Utilities/_cache.py::cache_computed_values",),
                   bound="7 call spellings x all ordered pairs", clause="cached geometric factors (weighted Jacobians, B, N) are those the functions compute for the requested arguments"))
     obs.append(Ob("canary.rank.TRI3.thermal", ob_rank, ("TRI3", "thermal", 0, True), "B", expect=REFUTED, timeout=300))
